@@ -1,4 +1,5 @@
 From Coq Require Import Extraction ExtrOcamlBasic.
-From PV Require Import Lib.ExtractBase Model.Instance.
+From PV Require Import Lib.ExtractBase Model.Pool Model.Instance Model.InstancePool.
 Extraction Language OCaml.
-Extraction "extracted/C03_model.ml" xb_types mkCfg init replay run terminal_b tokens events pairing_b proj item_complete_b.
+Extraction "extracted/C03_model.ml" xb_types mkCfg init replay run terminal_b tokens events pairing_b proj item_complete_b
+  pinit pl_step pl_run preplay pool_ended started_ok_b cfg_tokens.
